@@ -265,12 +265,22 @@ def unique_ids(k):
 from harness import sizes as _sizes  # noqa: E402
 
 
+NOW = 200000
+
+
 def _many_state(k, tsel, lim):
     global IDS
     n = _sizes.pick(_sizes.size_cases(lim), k)
     IDS = ["sess-%05d" % i for i in range(max(n, 3))]
-    created = [10 * (i % 3) for i in range(n)]
-    last = [100 - 10 * (i % 5) for i in range(n)]     # ages 0, 10, 20, 30, 40 at now = 100
+    # idle times straddle the constants of the source that look like durations (3600 at the pinned commit): some
+    # sessions are older than any default expiry, none is touched by an operation that does not name it
+    ages = [0, 10]
+    for c in _sizes.source_ints():
+        if 60 <= c <= 100000:
+            ages += [c - 1, c, c + 1]
+    ages.append(90000)
+    last = [NOW - ages[i % len(ages)] for i in range(n)]
+    created = [max(x - 5, 0) for x in last]
     if n == 0 or tsel == 3:
         tid = MISSING
     elif tsel == 0:
@@ -286,10 +296,10 @@ def step_many(op, k, tsel, agesel, lim=1100):
     """one store operation from a store of n sessions (n = c-1, c, c+1 for the integer constants c of the source):
     the operation touches one session (first / middle / last / missing) or sweeps all of them"""
     n, created, last, tid = _many_state(k, tsel, lim)
-    max_age = (5, 25, 1000)[agesel] if 0 <= agesel <= 2 else -1
+    max_age = (5, 3600, 10 ** 6)[agesel] if 0 <= agesel <= 2 else -1
     saved = list(IDS)
     try:
-        return step(op, n, created, last, 100, 1, 0, max_age, tid=tid)
+        return step(op, n, created, last, NOW, 1, 0, max_age, tid=tid)
     finally:
         IDS[:] = saved[:3]
 
@@ -298,6 +308,6 @@ def handler_many(op, k, tsel, idsel, lim=1100):
     n, created, last, tid = _many_state(k, tsel, lim)
     saved = list(IDS)
     try:
-        return handler_step(op, n, created, last, 100, 1, 0, idsel, tid=tid)
+        return handler_step(op, n, created, last, NOW, 1, 0, idsel, tid=tid)
     finally:
         IDS[:] = saved[:3]
